@@ -22,7 +22,7 @@ TraceInit == l = 1 /\ r = InitR(<<>>, Null)
 TraceSelect ==
   /\ Trace[l].ev = "Select"
   /\ LET e == Resolve(Trace[l].sel, Trace[l].val) IN
-       e.k = "dontcare" \/ Trace[l].res = e
+       K(e) = "dontcare" \/ Trace[l].res = e
   /\ r' = RunR(InitR(Trace[l].sel, Trace[l].val))
 
 RECURSIVE Spells(_, _, _)
